@@ -395,7 +395,8 @@ def check_c03(case, log, oc, labels):
                 lo = t0 + d
                 if o == "cv_wait_for":
                     # a timed-out condition wait returns once the mutex is re-acquired: only "not before its date" here (C06 has the rest)
-                    if t1 < lo and not (lo - t1 < PREC * (1 + 1e-6) and any(abs(t1 - x) <= ulp(t1) for x in others(r["a"]))):
+                    early = t1 < lo and (tl.exact_at(r["n_ret"]) or lo - t1 > tl.slack(r["n_ret"], lo))     # (same rounding slack as match_date)
+                    if early and not (lo - t1 < PREC * (1 + 1e-6) and any(abs(t1 - x) <= ulp(t1) for x in others(r["a"]))):
                         oc.bad("sync-timeout-too-early", what + " timed out at %r" % t1)
                 elif d < PREC:
                     # the statement does not say whether the clamp applies to these: accept the whole range
